@@ -60,6 +60,7 @@ class Lexer:
         self.lang = lang
         self.has_pp = lang not in ("JAVA",)
         self.nosplice = lang in ("JAVA", "CS")
+        self.strict = False
         self.tab = _table(lang)
         self.items = []
         self.i = 0
@@ -77,7 +78,9 @@ class Lexer:
             return 0
         if i < self.n and s[i] == "\\":
             j = i + 1
-            while j < self.n and s[j] in " \t":     # gcc: backslash, blanks, newline is a splice
+            # gcc: backslash, blanks, newline is a splice - uncrustify follows it in directives (issue #1752) but not in a
+            # '//' comment, where it keeps a blank behind the backslash precisely to stop the comment from continuing
+            while not self.strict and j < self.n and s[j] in " \t":
                 j += 1
             if j < self.n and s[j] == "\r":
                 j += 1
@@ -221,15 +224,21 @@ class Lexer:
 
     def line_comment(self, start, line):
         out = []
+        self.strict = True
+        try:
+            self._line_comment_body(out)
+        finally:
+            self.strict = False
+        txt = self.s[start:self.i]
+        self.emit("cmt_cpp", txt, start, line)
+
+    def _line_comment_body(self, out):
         while True:
             c = self.cur()
             if c == "" or c in "\r\n":
                 break
             # keep the splice visible in the text of a // comment (it is part of the comment)
             out.append(self.adv())
-        # re-extract raw text (with splices) for fidelity
-        txt = self.s[start:self.i]
-        self.emit("cmt_cpp", txt, start, line)
 
     def header(self, start, line):
         out = []
